@@ -287,6 +287,22 @@ func registerEnv(e *Engine) {
 		{"GetUint", "uint"}, {"GetUint8", "uint8"}, {"GetInt", "int"}} {
 		r["(*"+pflagPkg+".FlagSet)."+k.meth] = getter(k.kind)
 	}
+	// Changed: the flag was given on the command line (ParseFlags) or Set explicitly
+	r["(*"+pflagPkg+".FlagSet).Changed"] = func(e *Engine, fr *frame, args []Value, site ssa.CallInstruction) Value {
+		fs := args[0].(*hostObj).v.(*flagSetObj)
+		name := mustStr(e, args[1], "flag name")
+		d := e.findFlag(fs.cmd, name)
+		if d == nil {
+			return false
+		}
+		s := e.env()
+		for c := fs.cmd; c != nil; c = s.parent[c] {
+			if _, ok := s.values[c][d.name]; ok {
+				return true
+			}
+		}
+		return false
+	}
 	r["(*"+pflagPkg+".FlagSet).Set"] = func(e *Engine, fr *frame, args []Value, site ssa.CallInstruction) Value {
 		fs := args[0].(*hostObj).v.(*flagSetObj)
 		return e.setFlag(fs.cmd, mustStr(e, args[1], "flag name"), args[2])
@@ -475,8 +491,30 @@ func registerEnv(e *Engine) {
 				}
 			}
 		}
-		e.abort(abortEngine, fmt.Sprintf("io.ReadAll on %v not modelled", rd.t))
-		return nil
+		// any other reader: call its Read method until it reports an error, as io.ReadAll does
+		m := e.findMethod(rd.t, "Read")
+		if m == nil {
+			e.abort(abortEngine, fmt.Sprintf("io.ReadAll on %v not modelled", rd.t))
+		}
+		var all []Value
+		for round := 0; ; round++ {
+			if round > 1<<16 {
+				e.abort(abortEngine, "io.ReadAll: reader never ends")
+			}
+			buf := make([]Value, 512)
+			for i := range buf {
+				buf[i] = uint64(0)
+			}
+			res := e.call(m, []Value{rd.v, sliceV{a: buf}}, site).(tuple)
+			n := asInt(res[0])
+			all = append(all, buf[:n]...)
+			if er, ok := res[1].(iface); ok && er.t != nil {
+				if eof, ok := e.ioEOF().(iface); ok && er.t == eof.t && er.v == eof.v {
+					return tuple{sliceV{a: all}, iface{}}
+				}
+				return tuple{sliceV{a: all}, er}
+			}
+		}
 	}
 	r["os.Exit"] = func(e *Engine, fr *frame, args []Value, site ssa.CallInstruction) Value {
 		e.exitCode = asInt(args[0])
